@@ -433,11 +433,78 @@ func (g *Gen) macro() {
 	if g.cfg.POps > 0 {
 		nk = 9 // operation-subset re-adds only where the check quantifies over requested operation sets
 	}
-	kind := rapid.IntRange(0, nk+1).Draw(t, "macro-kind")
-	if kind == nk+1 {
-		kind = 10
+	kind := rapid.IntRange(0, nk+5).Draw(t, "macro-kind")
+	if kind > nk {
+		kind = 10 + (kind - nk - 1)
 	}
 	switch kind {
+	case 14: // the listed path is replaced and re-added twice in a row, each old file kept
+		// alive (hard link, then open descriptor); then every incarnation is changed
+		slot := rapid.IntRange(0, 2).Draw(t, "macro-slot4")
+		if g.held[slot] {
+			em(Step{K: KRelease, N: slot})
+		}
+		add(f)
+		em(Step{K: KLink, P: P(f), Q: keep}, Step{K: KUnlink, P: P(f)}, Step{K: KCreate, P: P(f)})
+		add(f)
+		em(Step{K: KWrite, P: P(f), N: 1})
+		g.sync()
+		em(Step{K: KHold, P: P(f), N: slot}, Step{K: KUnlink, P: P(f)}, Step{K: KCreate, P: P(f)})
+		add(f)
+		em(Step{K: KWrite, P: P(f), N: 1}, Step{K: KWrite, P: keep, N: 1}, Step{K: KRelease, N: slot})
+		delete(g.held, slot)
+		g.sync()
+		g.steps = append(g.steps, Step{K: KList})
+		if g.cfg.Fdchk {
+			g.steps = append(g.steps, Step{K: KFdchk})
+		}
+		g.added = append(g.added, f)
+		return
+	case 11: // renamed, then removed under its new name before the reader has seen the rename
+		if g.pct("macro-withdir", 40) {
+			add(filepath.Dir(f))
+		}
+		add(f)
+		g.sync()
+		em(Step{K: KPlug}, Step{K: KRename, P: P(f), Q: keep}, Step{K: KWrite, P: keep, N: 1}, Step{K: KUnlink, P: keep})
+		if g.pct("macro-recreate", 50) {
+			em(Step{K: KCreate, P: P(f)})
+		}
+		g.sync()
+		g.steps = append(g.steps, Step{K: KList})
+		return
+	case 12: // Add of a listed path fails (the name is gone) while its old file lives on
+		// through a hard link: the watch must survive the failed call
+		add(f)
+		em(Step{K: KLink, P: P(f), Q: keep}, Step{K: KUnlink, P: P(f)})
+		add(f)
+		em(Step{K: KWrite, P: keep, N: 1}, Step{K: KChmod, P: keep, N: 0o600})
+		g.sync()
+		em(Step{K: KUnlink, P: keep})
+		g.sync()
+		g.steps = append(g.steps, Step{K: KList})
+		return
+	case 13: // a watched directory is renamed away and a watched file inside it removed
+		// before the reader has handled the directory's own notification
+		d := filepath.Dir(f)
+		if d == "d0" || strings.Count(d, "/") > 0 {
+			// keep the main directory; use this shape for d1 and below only
+			if d == "d0" {
+				g.fsStep()
+				g.sync()
+				return
+			}
+		}
+		add(d)
+		add(f)
+		g.sync()
+		moved := "u/moved-" + string(rune('a'+g.fresh%26))
+		em(Step{K: KPlug}, Step{K: KRename, P: P(d), Q: P(moved)}, Step{K: KUnlink, P: P(moved + "/" + filepath.Base(f))})
+		g.sync()
+		em(Step{K: KRename, P: P(moved), Q: P(d)})
+		g.sync()
+		g.steps = append(g.steps, Step{K: KList})
+		return
 	case 10: // two incarnations of a watched entry of a watched directory: the old inode
 		// lives on (hard link or open descriptor) while the name is re-created and
 		// changed, and goes away afterwards; the path is not added again
